@@ -133,6 +133,7 @@ Next ==
           [] e.k = "tsappend" -> st' = [st EXCEPT !.ts = Append(st.ts, e.id)] /\ v' = v
           [] e.k = "tswrite" -> st' = [st EXCEPT !.tswrites = st.tswrites + 1,
                                                  !.tsdone = IF e.id # 0 THEN st.tsdone \cup {e.id} ELSE st.tsdone] /\ v' = v
+          [] e.k = "tsfin" -> st' = [st EXCEPT !.tsdone = st.tsdone \cup {e.id}] /\ v' = v      \* the callback returned to its caller
           [] e.k = "sched" -> st' = [st EXCEPT !.sched = Append(st.sched, <<e.when, e.id>>)] /\ v' = v
           [] e.k = "sigint" -> st' = [st EXCEPT !.sigs = st.sigs + 1] /\ v' = v
           [] e.k = "tick" -> st' = [st EXCEPT !.ticksInReq = IF st.open THEN st.ticksInReq + 1 ELSE 0] /\ v' = v
